@@ -204,8 +204,12 @@ func asCheck(c *core.Ctx, plan asPlan) {
 		res.Report(c, mon)
 		c.Add("traces_validated_against_impl", int64(res.Validated))
 	}
-	c.Set("distinct_nontrivial", len(distinct))
-	c.Set("rule", plan.rule)
+	if plan.rule != "" {
+		c.Set("distinct_nontrivial", len(distinct))
+		c.Set("rule", plan.rule)
+	} else {
+		c.Add("distinct_nontrivial", int64(len(distinct)))
+	}
 	if len(traces) > 0 {
 		c.Sample(map[string]any{"name": traces[0].Name, "events": head(traces[0].Events, 40)})
 		c.Sample(map[string]any{"name": traces[len(traces)-1].Name, "events": head(traces[len(traces)-1].Events, 40)})
@@ -247,7 +251,7 @@ func init() {
 			rule: base + "Judged by FateMon."})
 	})
 	register("C06", func(c *core.Ctx) {
-		asCheck(c, asPlan{prop: "C06", monitors: []string{"KillMon"}, mc: t3, gen: g3, ops: append(append([][2]string{}, asOpsBasic...), asOpsWatch...),
+		asCheck(c, asPlan{prop: "C06", monitors: []string{"KillMon"}, mc: t3, gen: g3, ops: append(append([][2]string{{"sub", "A"}, {"sub", "B"}}, asOpsBasic...), asOpsWatch...),
 			rule: base + "Judged by KillMon."})
 	})
 	register("C09", func(c *core.Ctx) {
@@ -257,6 +261,10 @@ func init() {
 	register("C19", func(c *core.Ctx) {
 		asCheck(c, asPlan{prop: "C19", monitors: []string{"StreamMon"}, mc: t3, gen: g3, ops: asOpsStream,
 			rule: base + "Judged by StreamMon."})
+	})
+	register("C08", func(c *core.Ctx) {
+		asCheck(c, asPlan{prop: "C08", monitors: []string{"SuperviseMon"}, mc: t3, gen: g3, ops: [][2]string{{"nop", ""}, {"nop", ""}, {"fail", ""}, {"tell", "@"}},
+			rule: base + "Judged by SuperviseMon."})
 	})
 	register("C05", func(c *core.Ctx) {
 		asCheck(c, asPlan{prop: "C05", monitors: []string{"LifecycleMon"}, mc: []string{"MC_T3_" + asVariant + ".cfg"}, gen: []string{"Gen_T3_" + asVariant + ".cfg"}, ops: asOpsBasic,
